@@ -1433,6 +1433,17 @@ func init() {
 		genC05("C06"), "C06.", "C05.")
 }
 
+// nonAllocating: procedures that issue no handle, so that nothing can be evicted while they run (on the
+// pinned tree a handle leaves the table only through an eviction round of Allocate or through ReleaseAll).
+func nonAllocating(after string) bool {
+	for _, op := range []string{" GETATTR", " READ", " ACCESS", " SETATTR", " WRITE", " READLINK", " COMMIT"} {
+		if strings.HasSuffix(after, op) {
+			return true
+		}
+	}
+	return false
+}
+
 // checkHandleTable: C05 clauses "table bounded" and "one handle per path", via the accessor.
 func (r *seqRun) checkHandleTable(after string) {
 	fm := absnfs.VerifFileMap(r.w.NFS)
@@ -1453,6 +1464,13 @@ func (r *seqRun) checkHandleTable(after string) {
 		if _, ok := live[h]; !ok {
 			r.evicted++
 			simrt.Probe("handle_evicted")
+			if nonAllocating(after) {
+				if r.leftEarly == nil {
+					r.leftEarly = map[uint64]bool{}
+				}
+				r.leftEarly[h] = true
+				simrt.Probe("handle_dropped_without_eviction")
+			}
 		}
 	}
 	r.prevLive = live
